@@ -26,6 +26,69 @@ def _name_class(n):
     return "+".join(cls) or "other"
 
 
+def _inst_parse(cfg):
+    exts = []
+    for e in ([] if cfg in ("-", "") else cfg.split(";")):
+        h, p, c = e.split(":")
+        exts.append((h, p, c))
+    return exts
+
+
+def _inst_spec_py(cfg, c_sent, c_alt):
+    """ExtInstall.Spec.serve, evaluated independently (used when the Lean side cannot be built): every extension that
+    implements P sees the parameters in Use order, then every extension that implements C - whatever else it implements -
+    sees the operation context in Use order; first error wins; else Exec once."""
+    exts = _inst_parse(cfg)
+    cur, stats, calls = c_sent, "-", []
+    for i, (h, p, c) in enumerate(exts):
+        if "P" not in h:
+            continue
+        calls.append("P%d" % i)
+        if p.startswith("f"):
+            return "0 %s %s %s" % (p[1:], stats, ",".join(calls))
+        if p == "r":
+            cur = c_alt
+    for i, (h, p, c) in enumerate(exts):
+        if "C" not in h:
+            continue
+        calls.append("C%d" % i)
+        if c.startswith("f"):
+            return "0 %s %s %s" % (c[1:], stats, ",".join(calls))
+        if c.startswith("l"):
+            lim = int(c[1:])
+            stats = "%d/%d" % (cur, lim)
+            if cur > lim:
+                return "0 COMPLEXITY_LIMIT_EXCEEDED %s %s" % (stats, ",".join(calls))
+    return "1 - %s %s" % (stats, ",".join(calls) or "-")
+
+
+_HOOK_NAMES = {"P": "OperationParameterMutator", "C": "OperationContextMutator", "O": "OperationInterceptor", "R": "ResponseInterceptor",
+               "T": "RootFieldInterceptor", "F": "FieldInterceptor"}
+
+
+def _inst_describe(fams, cfg):
+    """the configuration in words, for the replay line"""
+    out = []
+    for i, (f, (h, p, c)) in enumerate(zip(fams.split(";"), _inst_parse(cfg))):
+        hooks = "+".join(_HOOK_NAMES[x] for x in h)
+        lim = ("limit %s" % c[1:]) if c.startswith("l") else None
+        if f == "k":
+            d = "extension.FixedComplexityLimit(%s)" % c[1:]
+        elif f == "e":
+            d = "a type embedding *extension.ComplexityLimit (%s) that implements %s" % (lim, hooks)
+        elif f == "a":
+            d = "Around%s(pass-through)" % {"O": "Operations", "R": "Responses", "T": "RootFields", "F": "Fields"}[h]
+        else:
+            acts = []
+            if "P" in h:
+                acts.append({"p": "parameters: pass", "r": "parameters: replaces the query"}.get(p, "parameters: refuses with " + p[1:]))
+            if "C" in h:
+                acts.append("context: delegates to a ComplexityLimit (%s)" % lim if lim else {"p": "context: pass"}.get(c, "context: refuses with " + c[1:]))
+            d = "a type implementing %s (%s)" % (hooks, "; ".join(acts) or "pass-through")
+        out.append("#%d %s" % (i, d))
+    return "Use order: " + " | ".join(out) if out else "no extension"
+
+
 def _calc_line(r):
     return "calc %s %s %s %s" % (r[1], r[2], r[3], r[4])
 
@@ -36,18 +99,19 @@ def run(ctx):
         "custom complexity functions are the user's code: the theorems quantify over all of them (as total functions returning a Go int); the correspondence samples them from the shared expression language (constant / a*child+b / args[name]*child+b, incl. negative and near-MaxInt values)",
         "ExecutableSchema.Exec is the only entry to resolvers (graphql/executor/executor.go DispatchOperation is its only caller); 'no resolver runs' is observed as 'Exec is not called'",
         "the walker model is hand-written and tied by differential runs; safeAdd/maxInt are re-translated from source on every run (Gen/SafeAdd.lean)",
+        "installation of the limit: processExtensions, (*Executor).Use and the mutator loops of CreateOperationContext are re-translated from source on every run (Gen/ExtInstall.lean; type assertions AND type switches have a reading) and proved to register every extension for every hook it implements (Props/C14Install.lean); what an extension's hooks DO is the user's code: the theorems quantify over pass / refuse / rewrite-the-document parameter mutators and pass / refuse / ComplexityLimit context mutators, the tie runs real types for every subset of the six hook interfaces (stock, embedding and delegating carriers); a context mutator that edits the parsed document or the variables after the gate is not modelled",
     ]
     ctx.assumptions += [
         "generated servers: the binding of schema fields to Go fields is the one DECLARED by the project the harness writes (an explicit @goField(name:) / fieldName / a name equal up to case and underscores, each matching exactly one field or method of the hand-written model); that gqlgen's binder resolves these declarations to that Go field is observed (the entries of the generated ComplexityRoot are compared with the declared ones), not modelled",
         "the template part of the generated Complexity() switch: the switch tag, the spelling of the case labels, the guards, the selectors of the nil check / the call and the ComplexityRoot declaration are regenerated per template flavour (Gen/ComplexityLabels.lean, go/extract/complexitylabels.go; text/template/parse) and proved Faithful (Props/C14Label.lean); the nesting of the ranges (`case` before the first member, body after the last) is recognised by the extractor (anything else is refused) and modelled by hand (Model/ComplexityLabel.lean, Model/ComplexitySwitch.lean) over the regenerated UniqueFields, tied by direct calls of the really generated Complexity() for every (type, field) of every generated project; argument unmarshalling (field_*_args) is executed, not modelled",
     ]
-    ok_extract = ctx.extract("SafeAdd", "UniqueFields", "ComplexityLabels")
-    proved = ok_extract and ctx.prove(props=["GqlgenVerif.Props.C14", "GqlgenVerif.Props.C14Gen", "GqlgenVerif.Props.C14Label"])
+    ok_extract = ctx.extract("SafeAdd", "UniqueFields", "ComplexityLabels", "ExtInstall")
+    proved = ok_extract and ctx.prove(props=["GqlgenVerif.Props.C14", "GqlgenVerif.Props.C14Gen", "GqlgenVerif.Props.C14Label", "GqlgenVerif.Props.C14Install"])
     if ok_extract and not proved:
         ctx.cov["proof_failure"] = ctx.proof_failure
     have_model = ok_extract and getattr(ctx, "driver_ok", False)
 
-    rc, so, se = ctx.harness("c14", ["-tier", ctx.tier, "-seed", ctx.seed])
+    rc, so, se = ctx.harness("c14", ["-tier", ctx.tier, "-seed", ctx.seed, "-instcorpus", os.path.join(vf.VERIF, "corpus", "C14", "installs.txt")])
     if rc != 0:
         raise RuntimeError("harness failed: " + se[-2000:])
     rows = [l.split("\t") for l in so.split("\n") if l]
@@ -57,6 +121,7 @@ def run(ctx):
     gates = [r for r in rows if r[0] == "gate"]
     bads = [r for r in rows if r[0] == "bad"]
     maxint = [r for r in rows if r[0] == "maxint"]
+    insts = [r for r in rows if r[0] == "inst"]
 
     # ---- model side: one driver run over everything
     lines = ["maxint"]
@@ -64,6 +129,7 @@ def run(ctx):
     lines += ["saspec %s %s" % (r[1], r[2]) for r in sas]
     lines += [_calc_line(r) for r in calcs]
     lines += [_calc_line(r) for r in gates]
+    lines += ["inst %s %s %s" % (r[2], r[3], r[4]) for r in insts]
     if have_model:
         model = ctx.driver("c14", lines)
         if len(model) != len(lines):
@@ -76,6 +142,7 @@ def run(ctx):
     m_saspec = model[k:k + len(sas)]; k += len(sas)
     m_calc = model[k:k + len(calcs)]; k += len(calcs)
     m_gcalc = model[k:k + len(gates)]; k += len(gates)
+    m_inst = model[k:k + len(insts)]; k += len(insts)
 
     branch = Counter()
     nontriv = set()
@@ -204,6 +271,69 @@ def run(ctx):
                                    r[14], r[2], r[3], c, limit, execs, hexecs, code, hcode, want_exec, want_code)},
                               no_failing_input=not failing)
 
+    # ---- HOW the limit is installed: real extension types for every subset of the hook interfaces, in any order,
+    # vs the server the regenerated processExtensions / CreateOperationContext describe vs the contract (Spec.serve)
+    inst_reported = Counter()
+    for r, m in zip(insts, m_inst):
+        fams, cfg, c_sent, c_alt, under = r[1], r[2], int(r[3]), int(r[4]), r[5]
+        impl = "%s %s %s %s" % (r[6], r[7], r[8], r[9])
+        http = "%s %s %s" % (r[11], r[12], r[13])
+        if m == "bad-op":
+            raise RuntimeError("driver could not parse case: inst %s %s %s" % (cfg, c_sent, c_alt))
+        if m is not None:
+            t = m.split(" ")
+            mm, spec = " ".join(t[:4]), " ".join(t[4:8])
+            if spec != _inst_spec_py(cfg, c_sent, c_alt):
+                raise RuntimeError("Lean Spec.serve and the check's own reading of the contract disagree on %s: %r vs %r" % (cfg, spec, _inst_spec_py(cfg, c_sent, c_alt)))
+        else:
+            mm, spec = None, _inst_spec_py(cfg, c_sent, c_alt)
+        st = spec.split(" ")
+        exts = _inst_parse(cfg)
+        carriers = [(f, h) for f, (h, p, c) in zip(fams.split(";"), exts) if "C" in h and c.startswith("l")]
+        for f, h in carriers:
+            extra = "".join(x for x in h if x != "C")
+            suffix = ""
+            if "P" in extra:
+                suffix = "+param" + ("+interceptors" if len(extra) > 1 else "")
+            elif extra:
+                suffix = "+interceptors"
+            branch["inst:carrier:" + {"k": "stock", "e": "embedding", "w": "delegating"}[f] + suffix] += 1
+        branch["inst:limits:%d" % min(len(carriers), 3)] += 1
+        branch["inst:extensions:%d" % len(exts)] += 1
+        if any("P" in h and p == "r" for h, p, c in exts):
+            branch["inst:document-rewritten"] += 1
+        outcome = "executed" if st[0] == "1" else ("over-limit" if st[1] == "COMPLEXITY_LIMIT_EXCEEDED" else "refused-by-other-mutator")
+        branch["inst:" + outcome] += 1
+        nontriv.add("i%s|%s|%s|%s|%s" % (fams, cfg, r[15], r[16], r[17]))
+        http_spec = "%s %s %s" % (st[0], st[1], st[3])
+        bad = []
+        if impl != spec:
+            bad.append("executor")
+        if http != http_spec:
+            bad.append("http")
+        if st[0] == "0" and r[10] != "0":
+            bad.append("resolver-ran")
+        if mm is not None and mm != impl:
+            bad.append("model")
+        if bad:
+            ndiv += 1
+            failing = bad != ["model"]
+            kind = "failing" if failing else "model-only"
+            if inst_reported[kind] < 4:
+                inst_reported[kind] += 1
+                multi = any(len(h) > 1 for f, h in carriers)
+                ctx.violation({"kind": "correspondence", "case_kind": "installed limit", "families": fams, "cfg": cfg, "query": r[17], "query_substituted_by_rewrite": r[18],
+                               "customs": r[15], "vars": r[16], "complexity_sent": c_sent, "complexity_alt": c_alt, "limit_under_test": under, "differs": bad,
+                               "impl": {"executor": {"exec_calls": r[6], "code": r[7], "stats": r[8], "mutator_calls": r[9], "resolver_calls": r[10]},
+                                        "http": {"exec_calls": r[11], "code": r[12], "mutator_calls": r[13]}, "interceptor_calls_O/R/T/F": r[14]},
+                               "model_regenerated": mm, "spec": spec, "driver_line": "inst %s %s %s" % (cfg, c_sent, c_alt),
+                               "shape": {"part": "install", "outcome": outcome, "differs": ",".join(bad), "carrier_implements_more_hooks": multi},
+                               "replay": "%s; operation `%s` (custom costs {%s}, variables {%s}) has complexity %d%s: the server called Exec %s time(s) (HTTP: %s), code %s (HTTP: %s), recorded complexity/limit %s, mutator hooks called [%s]; the contract gives Exec x%s, code %s, %s, hooks [%s]" % (
+                                   _inst_describe(fams, cfg), r[17], r[15], r[16], c_sent,
+                                   (" (a parameter mutator substitutes `%s`, complexity %d)" % (r[18], c_alt)) if any("P" in h and p == "r" for h, p, c in exts) else "",
+                                   r[6], r[11], r[7], r[12], r[8], r[9], st[0], st[1], st[2], st[3])},
+                              no_failing_input=not failing)
+
     # ---- malformed stream: must be stopped before the gate; Exec never runs; never blamed on complexity
     for r in bads:
         valid, limit, execs, code, hexecs, hcode = r[1], r[2], r[3], r[4], r[5], r[6]
@@ -265,14 +395,17 @@ def run(ctx):
         return xs[i] if len(xs) > i else None
 
     ctx.cov.update({
-        "evaluations": len(sas) + len(calcs) + len(gates) + len(bads) + len(monos) + 1 + gstats["evaluations"],
+        "evaluations": len(sas) + len(calcs) + len(gates) + len(bads) + len(monos) + len(insts) + 1 + gstats["evaluations"],
         "generated_servers": gstats,
         "distinct_nontrivial": len(nontriv),
         "rule": "safeAdd: exhaustive 20x20 boundary grid (min, min+1, +-max/2, -1..3, 2^31, 2^32, max/2-1..max/2+2, max-2..max) + seeded pairs around the overflow boundary; "
                 "Calculate: 22 directed operations x 18+8 directed custom tables (+ custom pinned to children's cost -1/0/+1) + seeded random operations over 2 probe schemas + seeded random schemas "
                 "(type and field names spelled with leading lower case / capitals / underscores / digits / initialisms; fragments nested and reused, inline fragments with/without type condition, interfaces incl. one without implementors, unions, aliases, Int arguments literal/null/variable/absent with defaults, "
                 "@skip/@include, __schema/__type/__typename, mutations) x random custom tables; gate: every directed case at limit c-1/c/c+1 and random cases at c-1/c/c+1 + extreme limits, "
-                "through executor.New, handler.New+transport.POST and handler.New+transport.GET (operationName given / omitted, multi-operation documents); seeded random schemas; metamorphic pairs (one selection added at the top level); malformed: mutated operations. Non-trivial = distinct case reaching a branch beyond default costs "
+                "through executor.New, handler.New+transport.POST and handler.New+transport.GET (operationName given / omitted, multi-operation documents); "
+                "INSTALLATION: the limit carried by the stock extension, by types embedding *ComplexityLimit and by types delegating to it, for every subset of the six hook interfaces (95 real types), "
+                "1..5 extensions in any Use order incl. Around* conveniences, two limits, refusing parameter/context mutators before and after the limit, a parameter mutator that rewrites the document, "
+                "directed configurations of corpus/C14/installs.txt x 5 operations + seeded configurations x random operations, each at limit c-1/c/c+1 (+ extreme), on executor.New and handler.New+POST, every mutator call logged; seeded random schemas; metamorphic pairs (one selection added at the top level); malformed: mutated operations. Non-trivial = distinct case reaching a branch beyond default costs "
                 "(custom used/ignored/negative/equal, saturation, interface, fragment, variable, __Schema skip), every safeAdd pair and every gate case; "
                 "generated servers: directed projects of corpus/C14/genprojects.txt + seeded random projects (2..4 hand-written models, groups of 1..3 schema fields bound to one Go struct field / method through "
                 "@goField(name:), fieldName configuration or names equal up to case/underscore, members shuffled so the by-name member is first/middle/last, forced resolvers next to a shared name, scalar/object-typed/method-with-arguments groups; "
@@ -283,7 +416,7 @@ def run(ctx):
         "input_distribution": dict(branch),
         "kinds": dict(kinds),
         "correspondence_divergences": ndiv,
-        "samples": [x for x in [pick(sas, 150), pick(calcs, 40), pick(calcs, len(calcs) // 2), pick(gates, 7), pick(bads, 0)] if x],
+        "samples": [x for x in [pick(sas, 150), pick(calcs, 40), pick(calcs, len(calcs) // 2), pick(gates, 7), pick(insts, 100), pick(bads, 0)] if x],
         "model_available": bool(have_model),
     })
 
